@@ -3,7 +3,7 @@ import ast
 import z3
 
 from .sym import (SV, State, Unsupported, NONE, MARKER, mk_int, mk_bool,
-                  fresh, INT, BOOL, KS, ELEM_SORT, ELEM_KIND, KIND_SORT)
+                  fresh, INT, BOOL, KS, ELEM_SORT, ELEM_KIND, KIND_SORT, ELEM_DEFAULT)
 from .engine import Engine, Obl, FIELDS, CLASS_IDS, PERSISTENT, field_sort
 from .expr import ExprMixin, exc, exc_matches
 from .spec import SpecMixin, SpecCtx, Contract, parse_kind, TK, TV, REPK, REPV
@@ -127,6 +127,8 @@ class Exec(ExprMixin, SpecMixin, Engine):
                     return [(s, mk_bool(True))]
                 return [(s, mk_bool(self.isinst(s, o, c)))]
             if c.kind == "cls" and c.x == "tuple":
+                if o.kind == "list":
+                    return [(s, mk_bool(self.hget(s, "$istuple", o.z)))]
                 return [(s, mk_bool(o.kind == "tuple"))]
             if c.kind == "cls" and c.x == "slice":
                 return [(s, mk_bool(False))]
@@ -139,7 +141,11 @@ class Exec(ExprMixin, SpecMixin, Engine):
         if name == "next" and len(args) == 1 and args[0].kind == "ref":
             return self.iter_next(s, args[0])
         if name == "tuple" and args and args[0].kind == "list":
-            return [(s, args[0])]      # immutable snapshot: callers only read it
+            # tuple(seq): a new immutable sequence object with the same items
+            a = args[0]
+            return [(s, self.new_list(s, a.x, self.lcontent(s, a.z, a.x), self.llen(s, a.z),
+                                      elems=self.hget(s, "$elems", a.z) if a.x == "K" else None,
+                                      is_tuple=True))]
         if name in ("KeyError", "ValueError", "TypeError", "IndexError",
                     "AssertionError", "BTreesConflictError"):
             return [(s, SV("excobj", list(args), name))]
@@ -184,8 +190,7 @@ class Exec(ExprMixin, SpecMixin, Engine):
                 return [(s, SV("excobj", list(args), c.x))]
             if c.x.startswith("list:"):
                 ek = c.x[5:]
-                dflt = z3.RealVal(0) if ek == "K" else z3.IntVal(0)
-                return [(s, self.new_list(s, ek, z3.K(INT, dflt), z3.IntVal(0)))]
+                return [(s, self.new_list(s, ek, z3.K(INT, ELEM_DEFAULT[ek]), z3.IntVal(0)))]
             if c.x == "_SetIteration" and "_SetIteration.__init__" in self.contracts:
                 r = self.new_ref(s, "_SetIteration")
                 recv = SV("ref", r, "_SetIteration")
@@ -235,6 +240,7 @@ class Exec(ExprMixin, SpecMixin, Engine):
         j = z3.Int("j!l")
         ek = lst.x
         if name == "append":
+            self.u_typed(s, args[0], ELEM_KIND[ek] if ek != "R" else "ref", "list.append")
             x = self.coerce(args[0], ELEM_KIND[ek] if ek != "R" else "ref")
             self.lset(s, lst.z, ek, z3.Store(c, n, x), n + 1)
             if ek == "K":
@@ -242,6 +248,7 @@ class Exec(ExprMixin, SpecMixin, Engine):
             return [(s, NONE)]
         if name == "insert":
             i = args[0].z
+            self.u_typed(s, args[1], ELEM_KIND[ek] if ek != "R" else "ref", "list.insert")
             x = self.coerce(args[1], ELEM_KIND[ek] if ek != "R" else "ref")
             # Python clamps; we make "0 <= i <= len" an obligation instead
             self.oblige(s, "list.insert:index-in-range", z3.And(0 <= i, i <= n))
